@@ -287,6 +287,72 @@ func main() {
 		checkLine(c, in)
 	})
 
+	// families: long lines (the explicit stack of Douglas-Peucker, the heap of Visvalingam and the scratch
+	// arrays grow with the input), and one simplifier object used for two different lines in a row
+	lens := []int{8, 16, 33, 64, 100}
+	if !r.Quick() {
+		lens = append(lens, 257, 1025)
+	}
+	family := func(f, n int) orb.LineString {
+		ls := make(orb.LineString, n)
+		for i := range ls {
+			x, y := float64(i), 0.0
+			switch f {
+			case 0: // sawtooth of constant height
+				y = float64(i % 2 * 3)
+			case 1: // sawtooth of growing height
+				y = float64(i%2) * float64(i%7)
+			case 2: // arc
+				y = float64(i*(n-1-i)) / float64(n)
+			case 3: // staircase with repeated vertices
+				x, y = float64(i/3), float64(i/3%4)
+			case 4: // collinear
+				y = 2 * x
+			case 5: // closed zig-zag loop (also valid as a ring)
+				if i < n/2 {
+					y = float64(i % 3)
+				} else {
+					x, y = float64(n-1-i), 5+float64(i%3)
+				}
+				if i == n-1 {
+					x, y = 0, 0
+				}
+			}
+			ls[i] = orb.Point{x, y}
+		}
+		return ls
+	}
+	r.Explore("families", fmt.Sprintf("6 families (sawtooth, growing sawtooth, arc, staircase with repeats, collinear, closed loop) x lengths %v: the same oracle as `lines`; then 7 simplifier objects each used for two different lines in a row against fresh objects", lens), mc.Opts{MaxDev: -1, Split: 2}, func(c *mc.Ctx) {
+		f := c.Choose(6)
+		n := lens[c.Choose(len(lens))]
+		in := family(f, n)
+		checkLine(c, in)
+		other := family((f+1)%6, n/2+1)
+		for _, sp := range []struct {
+			name        string
+			used, fresh orb.Simplifier
+		}{
+			{"DouglasPeucker(0.6)", simplify.DouglasPeucker(0.6), simplify.DouglasPeucker(0.6)},
+			{"DouglasPeucker(5)", simplify.DouglasPeucker(5), simplify.DouglasPeucker(5)},
+			{"Radial(1.2)", simplify.Radial(planar.Distance, 1.2), simplify.Radial(planar.Distance, 1.2)},
+			{"VisvalingamThreshold(0.6)", simplify.VisvalingamThreshold(0.6), simplify.VisvalingamThreshold(0.6)},
+			{"VisvalingamKeep(5)", simplify.VisvalingamKeep(5), simplify.VisvalingamKeep(5)},
+			{"Visvalingam(2,4)", simplify.Visvalingam(2, 4), simplify.Visvalingam(2, 4)},
+			{"VisvalingamThreshold(50)", simplify.VisvalingamThreshold(50), simplify.VisvalingamThreshold(50)},
+		} {
+			first := sp.used.LineString(in.Clone())
+			second := sp.used.LineString(other.Clone())
+			if want := sp.fresh.LineString(other.Clone()); !same(second, want) {
+				c.Failf("simplifier-reuse", "%s used for a %d-vertex line and then for %v gives %v, a fresh simplifier gives %v", sp.name, n, other, second, want)
+				return
+			}
+			if again := sp.used.LineString(in.Clone()); !same(again, first) {
+				c.Failf("simplifier-reuse", "%s gives %v for the family-%d line of %d vertices the first time and %v the third time", sp.name, first, f, n, again)
+				return
+			}
+		}
+	})
+
 	// wrappers and the generic entry point
 	type simp struct {
 		name string
